@@ -181,6 +181,74 @@ func genPayload(it WireItem) []byte {
 			}
 		}
 		return b
+	case "userctl":
+		// user control message: every event type, 0..8 bytes behind the type
+		b := []byte{0, byte(it.Shape % 9)}
+		if it.Shape%11 == 10 {
+			b = []byte{byte(it.Seed), byte(it.Seed >> 8)}
+		}
+		return append(b, randBytes(it.Seed, n%9)...)
+	case "sps_golomb":
+		// AVC sequence header whose SPS is syntactically plausible up to one exp-golomb field that is huge (or where the
+		// data simply ends): parsers that loop on such counts must stop at the end of the data
+		bw := &bitW{}
+		profile := []int{66, 66, 100, 77, 244}[it.Shape%5]
+		bw.bits(uint64(profile), 8)
+		bw.bits(0, 8)
+		bw.bits(31, 8)
+		bw.ue(0) // sps id
+		if profile == 100 || profile == 244 {
+			bw.ue(uint64([]int{1, 3, 3}[it.Shape%3])) // chroma_format_idc
+			if it.Shape%3 != 0 {
+				bw.bits(0, 1)
+			}
+			bw.ue(0)
+			bw.ue(0)
+			bw.bits(0, 1)
+			bw.bits(uint64(it.Shape/5%2), 1) // seq_scaling_matrix_present_flag
+			if it.Shape/5%2 == 1 {
+				bw.bits(0xff, 8) // lists present, then the data may end
+			}
+		}
+		huge := []uint64{1<<32 - 2, 1 << 20, 255, 70000}[it.Shape/10%4]
+		field := n % 6
+		val := func(i int, normal uint64) uint64 {
+			if i == field {
+				return huge
+			}
+			return normal
+		}
+		bw.ue(val(0, 0)) // log2_max_frame_num_minus4
+		poc := uint64(it.Shape / 40 % 3)
+		bw.ue(poc)
+		switch poc {
+		case 0:
+			bw.ue(val(1, 2))
+		case 1:
+			bw.bits(0, 1)
+			bw.se(0)
+			bw.se(0)
+			bw.ue(val(1, 2)) // num_ref_frames_in_pic_order_cnt_cycle
+			for i := 0; i < n%4; i++ {
+				bw.se(int64(i))
+			}
+		}
+		if n%7 != 0 { // otherwise the SPS ends here
+			bw.ue(val(2, 1)) // max_num_ref_frames
+			bw.bits(0, 1)
+			bw.ue(val(3, 39)) // pic_width_in_mbs_minus1
+			bw.ue(val(4, 29))
+			bw.bits(1, 1)
+			bw.bits(1, 1)
+			bw.bits(0, 1) // frame_cropping_flag
+			bw.bits(uint64(it.Shape/120%2), 1)
+			if it.Shape/120%2 == 1 {
+				bw.bits(uint64(it.Seed), 32) // vui bits
+			}
+		}
+		sps := append([]byte{0x67}, bw.bytes()...)
+		pps := []byte{0x68, 0xeb, 0xe3, 0xcb, 0x22, 0xc0}
+		return media.AvcSeqHeaderPayload(sps, pps)
 	case "nal_types":
 		// well-framed AVCC / HVCC lists of tiny NAL units whose first byte runs over every NAL type (aggregation and
 		// fragmentation types of the RTP payload formats included), 1..4 bytes each
@@ -272,6 +340,41 @@ func genPayload(it WireItem) []byte {
 	return nil
 }
 
+// bitW writes MSB-first bit strings (exp-golomb coded SPS fields).
+type bitW struct {
+	b []byte
+	n uint
+}
+
+func (w *bitW) bits(v uint64, n int) {
+	for i := n - 1; i >= 0; i-- {
+		if w.n%8 == 0 {
+			w.b = append(w.b, 0)
+		}
+		if v>>uint(i)&1 == 1 {
+			w.b[len(w.b)-1] |= 0x80 >> (w.n % 8)
+		}
+		w.n++
+	}
+}
+func (w *bitW) ue(v uint64) {
+	v++
+	l := 0
+	for x := v; x > 1; x >>= 1 {
+		l++
+	}
+	w.bits(0, l)
+	w.bits(v, l+1)
+}
+func (w *bitW) se(v int64) {
+	if v <= 0 {
+		w.ue(uint64(-2 * v))
+	} else {
+		w.ue(uint64(2*v - 1))
+	}
+}
+func (w *bitW) bytes() []byte { return w.b }
+
 // amfHostileValue: one AMF0 value whose declared count / length lies, or whose marker is rare.
 func amfHostileValue(n int) []byte {
 	vals := [][]byte{
@@ -305,7 +408,24 @@ func cmdPayload(it WireItem) []byte {
 	if it.Gen == "objvals" {
 		// a command object (connect's, or any other command's) whose property values are hostile
 		f.Num(1)
-		b := append(f.B, 3, 0, 3, 'a', 'p', 'p', 2, 0, 4, 'l', 'i', 'v', 'e')
+		b := append(f.B, 3)
+		if it.Seed%3 == 0 {
+			// the properties a server looks up by name, with values of another type than it expects
+			wrong := [][]byte{{0, 0x3f, 0xf0, 0, 0, 0, 0, 0, 0}, {1, 1}, {5}, {3, 0, 0, 9}, {2, 0, 1, '3'}, {10, 0, 0, 0, 0}, {8, 0, 0, 0, 0, 0, 0, 9}, {11, 0, 0, 0, 0, 0, 0, 0, 0, 0, 0}}
+			for ki, key := range []string{"app", "tcUrl", "flashVer", "objectEncoding", "type", "swfUrl"} {
+				if (it.N>>uint(ki))&1 == 1 || ki == int(it.Seed/3%6) {
+					b = append(b, 0, byte(len(key)))
+					b = append(b, key...)
+					b = append(b, wrong[(int(it.Seed/7)+ki)%len(wrong)]...)
+				}
+			}
+		} else {
+			b = append(b, 0, 3, 'a', 'p', 'p', 2, 0, 4, 'l', 'i', 'v', 'e')
+		}
+		if it.Seed%3 == 0 {
+			// (a well-formed object otherwise: the wrongly typed values must survive the decoder to be looked up)
+			return append(b, 0, 0, 9)
+		}
 		for i := 0; i < 1+it.N%3; i++ {
 			b = append(b, 0, 1, byte('p'+i))
 			b = append(b, amfHostileValue(it.N/3+i*7+int(it.Seed%23))...)
@@ -553,10 +673,16 @@ func genWireItems(r *sim.Rng, n int, asPublisher bool) []WireItem {
 			items = append(items, WireItem{Kind: "msg", Type: t, Csid: 2 + r.Intn(8), Msid: r.Intn(2), Ts: uint32(r.Intn(1000)), Gen: "rand", N: []int{0, 1, 2, 3, 4, 5, 7, 11, 100}[r.Intn(9)], Seed: seed})
 		case 2: // control messages with short payloads
 			items = append(items, WireItem{Kind: "msg", Type: []int{1, 2, 3, 4, 5, 6}[r.Intn(6)], Csid: 2, Gen: "zeros", N: r.Intn(4)})
+			if r.Bool(0.5) {
+				items[len(items)-1] = WireItem{Kind: "msg", Type: 4, Csid: 2, Gen: "userctl", N: r.Intn(9), Shape: r.Intn(64), Seed: seed}
+			}
 		case 3:
 			items = append(items, WireItem{Kind: "cmd", Name: []string{"connect", "createStream", "publish", "play", "deleteStream", "FCPublish", "releaseStream", "getStreamLength", "pause", "xyz", "_result", "onStatus"}[r.Intn(12)], Shape: []int{0, 0, 0, r.Intn(10)}[r.Intn(4)], N: r.Intn(60), Msid: r.Intn(2), Type: []int{0, 0, 0, 17}[r.Intn(4)]})
 			if r.Bool(0.3) {
 				items[len(items)-1].Gen, items[len(items)-1].Seed = "objvals", seed
+				if r.Bool(0.6) {
+					items[len(items)-1].Name = "connect" // the command whose object lal looks into
+				}
 			}
 		case 4: // media / data before or after the role is fixed
 			gen := []string{"video_hdr", "audio_hdr", "valid_video", "valid_audio", "seqhdr_trunc", "hevc_seqhdr_trunc", "nal_zero_len"}[r.Intn(7)]
